@@ -8,7 +8,10 @@
 // verif status socket); a concurrent reader samples nsqd.dat all the time; some cycles run
 // under strace to record the syscall order on nsqd.dat*.  After every kill the file is
 // read and the daemon restarted.  Also: crafted nsqd.dat files (invalid names, duplicates,
-// truncations, garbage) fed to start-up, and the data-path lock.
+// truncations, garbage) fed to start-up; write faults; forced schedules (NSQ_VERIF_WAIT: the
+// K8 mix, a channel deletion under a stale in-flight persist); and the data-path lock: a
+// second daemon started at every phase of the first one's life (boot, serving, persisting,
+// two points of its graceful exit, exited, killed).
 package main
 
 import (
@@ -126,10 +129,12 @@ type Cycle struct {
 	Ops  []Op     `json:"ops"`
 	Kill Kill     `json:"kill"`
 	Hold []string `json:"hold,omitempty"` // NSQ_VERIF_HOLD points (wait there for pending Notify goroutines)
+	Wait string   `json:"wait,omitempty"` // NSQ_VERIF_WAIT spec (a point's k-th hit waits until a counter is reached)
 }
 type Scenario struct {
 	Name   string  `json:"name"`
-	Kind   string  `json:"kind"` // churn | load | lock
+	Kind   string  `json:"kind"`            // churn | load | lock | fault | mix
+	Phase  string  `json:"phase,omitempty"` // lock cases: what the first daemon is doing when the second one is started
 	Strace bool    `json:"strace,omitempty"`
 	Cycles []Cycle `json:"cycles,omitempty"`
 	// load cases
@@ -159,14 +164,34 @@ type daemon struct {
 	addrCh   chan string
 	logMu    sync.Mutex
 	logTail  []string
+	marks    map[string]bool // which of logMarks have been seen on stderr
 	client   *http.Client
+}
+
+// log lines that tell how far a graceful exit has come (NSQD.Exit, queueScanLoop, apps/nsqd)
+var logMarks = []string{"NSQ: closing topics", "NSQ: stopping subsystems", "QUEUESCAN: closing", "NSQ: bye", "failed to lock data-path"}
+
+func (d *daemon) sawMark(m string) bool {
+	d.logMu.Lock()
+	defer d.logMu.Unlock()
+	return d.marks[m]
 }
 
 var nStarts int64
 
 func startDaemon(bin, dir string, killSpec string, hold []string, strace bool, tag string) (*daemon, error) {
+	wait := ""
+	if tag == "k8" {
+		wait = k8Wait
+	}
+	return startDaemonW(bin, dir, killSpec, hold, wait, strace, tag, true)
+}
+
+// startDaemonW: wait = NSQ_VERIF_WAIT spec; sock = false starts a daemon WITHOUT the status
+// socket (a second daemon on a data path must not take the first one's socket away).
+func startDaemonW(bin, dir string, killSpec string, hold []string, wait string, strace bool, tag string, sock bool) (*daemon, error) {
 	atomic.AddInt64(&nStarts, 1)
-	d := &daemon{dir: dir, strace: strace, exited: make(chan struct{}), addrCh: make(chan string, 1)}
+	d := &daemon{dir: dir, strace: strace, exited: make(chan struct{}), addrCh: make(chan string, 1), marks: map[string]bool{}}
 	d.sock = filepath.Join(dir, "verif.sock")
 	// unix sockets inside the scratch data path: no other process can ever answer for this
 	// daemon (an ephemeral TCP port is reused by unrelated daemons as soon as ours is killed)
@@ -182,9 +207,12 @@ func startDaemon(bin, dir string, killSpec string, hold []string, strace bool, t
 	} else {
 		d.cmd = exec.Command(bin, args...)
 	}
-	d.cmd.Env = append(os.Environ(), "NSQ_VERIF_SOCK="+d.sock)
-	if tag == "k8" {
-		d.cmd.Env = append(d.cmd.Env, "NSQ_VERIF_WAIT="+k8Wait)
+	d.cmd.Env = os.Environ()
+	if sock {
+		d.cmd.Env = append(d.cmd.Env, "NSQ_VERIF_SOCK="+d.sock)
+	}
+	if wait != "" {
+		d.cmd.Env = append(d.cmd.Env, "NSQ_VERIF_WAIT="+wait)
 	}
 	if strings.HasPrefix(tag, "fs-") { // fs-<k>-<bytes>: arm the write fault at the k-th completed persist
 		if f := strings.Split(tag, "-"); len(f) == 3 {
@@ -215,6 +243,11 @@ func startDaemon(bin, dir string, killSpec string, hold []string, strace bool, t
 			d.logTail = append(d.logTail, line)
 			if len(d.logTail) > 30 {
 				d.logTail = d.logTail[1:]
+			}
+			for _, m := range logMarks {
+				if strings.Contains(line, m) {
+					d.marks[m] = true
+				}
 			}
 			d.logMu.Unlock()
 			if !sent {
@@ -635,7 +668,7 @@ func runChurn(bin, scratch string, sc Scenario) (lib.Case, error) {
 			spec = fmt.Sprintf("%s:%d", cy.Kill.Point, cy.Kill.K)
 		}
 		smp := startSampler(dir)
-		d, err := startDaemon(bin, dir, spec, cy.Hold, sc.Strace, strconv.Itoa(ci))
+		d, err := startDaemonW(bin, dir, spec, cy.Hold, cy.Wait, sc.Strace, strconv.Itoa(ci), true)
 		if err != nil {
 			smp.finish()
 			return lib.Case{}, err
@@ -817,6 +850,9 @@ func runChurn(bin, scratch string, sc Scenario) (lib.Case, error) {
 		if len(cy.Hold) > 0 {
 			tags = append(tags, "hold-deleter-until-notify-done")
 		}
+		if cy.Wait != "" {
+			tags = append(tags, "forced-schedule")
+		}
 		if cy.Kill.Mode == "point" {
 			tags = append(tags, "point="+cy.Kill.Point)
 		}
@@ -916,50 +952,256 @@ func runLoad(bin, scratch string, sc Scenario) (lib.Case, error) {
 }
 
 // ---------------------------------------------------------------- data-path lock
-func runLock(bin, scratch string, sc Scenario) (lib.Case, error) {
-	dir, err := os.MkdirTemp(scratch, "meta-")
-	if err != nil {
-		return lib.Case{}, err
+// A second nsqd is started on the data path of a first one at each phase of the first one's
+// life.  The first daemon is brought to the phase and kept there by NSQ_VERIF_WAIT (a point
+// waits for a counter that is never hit: the hook's cap of 10 s, far longer than the attempt
+// takes; the case is dropped as inconclusive when it took longer than lockPhaseBudget):
+//
+//	boot                 parked inside the start-up PersistMetadata (LoadMetadata done, not serving yet)
+//	serving              idle
+//	persisting           a Notify goroutine parked inside PersistMetadata, NSQD lock held
+//	exit-topics-closed   SIGTERM; Exit() parked after it closed the topics and dropped the NSQD lock
+//	exit-subsystems      SIGTERM; Exit() is in waitGroup.Wait() behind a Notify goroutine that has not
+//	                     yet handed its event over (it goes on to PersistMetadata when it has)
+//	exited               SIGTERM; the process has ended by itself (status 0)
+//	killed               SIGKILL
+//
+// While the path is in use (the first five) the second daemon must exit non-zero by itself without
+// serving, nsqd.dat must be the same file with the same bytes afterwards and the first daemon must
+// still be where it was; once the first one is gone the second must start.  A third daemon started
+// after everything was killed must serve what nsqd.dat holds.
+var lockPhases = []string{"boot", "serving", "persisting", "exit-topics-closed", "exit-subsystems", "exited", "killed"}
+
+const neverCounter = "verif:never-hit"
+const lockPhaseBudget = 6 * time.Second
+
+var nLockInconclusive int64
+
+func lockWait(phase string) string {
+	switch phase {
+	case "boot":
+		return "persist:after-tmp-write|1|" + neverCounter + "|1"
+	case "persisting":
+		return "persist:after-tmp-write|2|" + neverCounter + "|1"
+	case "exit-topics-closed":
+		return "exit:topics-closed|1|" + neverCounter + "|1"
+	case "exit-subsystems":
+		return "notify:before-send|1|" + neverCounter + "|1"
 	}
-	defer os.RemoveAll(dir)
-	a, err := startDaemon(bin, dir, "", nil, false, "a")
-	if err != nil {
-		return lib.Case{}, err
+	return ""
+}
+
+func lockPhaseCoq(phase string) string {
+	switch phase {
+	case "boot":
+		return "LBoot"
+	case "persisting":
+		return "LPersisting"
+	case "exit-topics-closed":
+		return "LExitTopicsClosed"
+	case "exit-subsystems":
+		return "LExitSubsystems"
+	case "exited":
+		return "LExited"
+	case "killed":
+		return "LKilled"
 	}
-	if _, ok := a.waitServing(); !ok {
-		a.sigkill()
-		return lib.Case{}, fmt.Errorf("lock: first daemon did not start\n%s", a.tail())
-	}
-	// the second daemon on the same data path must exit non-zero by itself
-	b := exec.Command(bin, "-data-path", dir, "-http-address", filepath.Join(dir, "h-b.sock"), "-tcp-address", filepath.Join(dir, "t-b.sock"))
-	var berr bytes.Buffer
-	b.Stderr = &berr
-	refused := false
-	if err := b.Start(); err == nil {
-		done := make(chan error, 1)
-		go func() { done <- b.Wait() }()
-		select {
-		case err := <-done:
-			if ee, ok := err.(*exec.ExitError); ok && ee.ExitCode() > 0 {
-				refused = true
+	return "LServing"
+}
+
+// waitHit: the named point has been passed at least n times (status socket)
+func (d *daemon) waitHit(point string, n int) bool {
+	deadline := time.Now().Add(30 * time.Second)
+	for time.Now().Before(deadline) {
+		if h, err := d.hits(); err == nil {
+			if h[point] >= n {
+				return true
 			}
-		case <-time.After(30 * time.Second):
-			b.Process.Kill()
-			<-done
+		} else if !d.alive() {
+			return false
+		}
+		time.Sleep(300 * time.Microsecond)
+	}
+	return false
+}
+
+func (d *daemon) waitMark(m string) bool {
+	deadline := time.Now().Add(30 * time.Second)
+	for time.Now().Before(deadline) {
+		if d.sawMark(m) {
+			return true
+		}
+		if !d.alive() {
+			return d.sawMark(m)
+		}
+		time.Sleep(300 * time.Microsecond)
+	}
+	return false
+}
+
+type datIdent struct {
+	present bool
+	ino     uint64
+	bytes   []byte
+}
+
+func identDat(dir string) datIdent {
+	fn := filepath.Join(dir, "nsqd.dat")
+	b, err := os.ReadFile(fn)
+	if err != nil {
+		return datIdent{}
+	}
+	id := datIdent{present: true, bytes: b}
+	if fi, err := os.Stat(fn); err == nil {
+		if st, ok := fi.Sys().(*syscall.Stat_t); ok {
+			id.ino = st.Ino
 		}
 	}
-	_, err1 := a.stats()
-	firstAlive := err1 == nil && a.alive()
-	a.sigkill()
+	return id
+}
+
+func runLock(bin, scratch string, sc Scenario) (lib.Case, bool, error) {
+	phase := sc.Phase
+	if phase == "" {
+		phase = "serving"
+	}
+	inUse := phase != "exited" && phase != "killed"
+	dir, err := os.MkdirTemp(scratch, "meta-")
+	if err != nil {
+		return lib.Case{}, false, err
+	}
+	defer os.RemoveAll(dir)
+	a, err := startDaemonW(bin, dir, "", nil, lockWait(phase), false, "a", true)
+	if err != nil {
+		return lib.Case{}, false, err
+	}
+	fail := func(what string) (lib.Case, bool, error) {
+		tail := a.tail()
+		a.sigkill()
+		return lib.Case{}, false, fmt.Errorf("lock/%s: %s\n%s", phase, what, tail)
+	}
+	parkedAt := time.Now()
+	if phase == "boot" {
+		if !a.waitHit("persist:after-tmp-write", 1) {
+			return fail("first daemon did not reach its start-up persist")
+		}
+	} else {
+		if _, ok := a.waitServing(); !ok {
+			return fail("first daemon did not start")
+		}
+		parkedAt = time.Now()
+		if st, err := doOp(a, Op{Kind: "ct", Topic: "t"}); err != nil || st != 200 {
+			return fail(fmt.Sprintf("topic creation failed: %v %d", err, st))
+		}
+		ok := true
+		switch phase {
+		case "persisting":
+			ok = a.waitHit("persist:after-tmp-write", 2)
+		case "exit-subsystems":
+			ok = a.waitHit("notify:before-send", 1)
+		default:
+			_, ok = a.waitIdle()
+		}
+		if !ok {
+			return fail("set-up state not reached")
+		}
+		switch phase {
+		case "exit-topics-closed":
+			parkedAt = time.Now()
+			a.cmd.Process.Signal(syscall.SIGTERM)
+			if !a.waitHit("exit:topics-closed", 1) {
+				return fail("Exit did not close the topics")
+			}
+		case "exit-subsystems":
+			a.cmd.Process.Signal(syscall.SIGTERM)
+			// queueScanLoop says so once exitChan is closed: Exit() is at (or about to enter) waitGroup.Wait()
+			if !a.waitMark("QUEUESCAN: closing") {
+				return fail("Exit did not stop the subsystems")
+			}
+		case "exited":
+			a.cmd.Process.Signal(syscall.SIGTERM)
+			if !a.waitExit(30*time.Second) || a.werr != nil {
+				return fail(fmt.Sprintf("graceful exit failed: %v", a.werr))
+			}
+		case "killed":
+			a.sigkill()
+		}
+	}
+	before := identDat(dir)
+	// the second daemon (no status socket of its own: it must not take the first one's away)
+	b, err := startDaemonW(bin, dir, "", nil, "", false, "b", false)
+	if err != nil {
+		a.sigkill()
+		return lib.Case{}, false, err
+	}
+	started, refused := false, false
+	select {
+	case <-b.addrCh:
+		started = true
+	case <-b.exited:
+		if ee, ok := b.werr.(*exec.ExitError); ok && ee.ExitCode() > 0 {
+			refused = true
+		}
+	case <-time.After(30 * time.Second):
+	}
+	lockMsg := b.sawMark("failed to lock data-path")
+	btail := lastN(b.tail(), 300)
+	if b.alive() {
+		b.sigkill()
+	}
+	after := identDat(dir)
+	took := time.Since(parkedAt)
+	datSame := before.present == after.present && bytes.Equal(before.bytes, after.bytes)
+	firstStill := true
+	if inUse {
+		datSame = datSame && before.ino == after.ino
+		h, herr := a.hits()
+		firstStill = a.alive() && herr == nil
+		switch phase {
+		case "boot":
+			firstStill = firstStill && h["persist:after-rename"] == 0
+		case "serving":
+			_, serr := a.stats()
+			firstStill = firstStill && serr == nil
+		case "persisting":
+			firstStill = firstStill && h["persist:after-rename"] == 1
+		case "exit-topics-closed":
+			firstStill = firstStill && !a.sawMark("NSQ: stopping subsystems")
+		case "exit-subsystems":
+			firstStill = firstStill && !a.sawMark("NSQ: bye")
+		}
+		if !firstStill && phase != "serving" && took > lockPhaseBudget {
+			// the hook's cap may have let the first daemon go on: nothing to judge
+			a.sigkill()
+			atomic.AddInt64(&nLockInconclusive, 1)
+			return lib.Case{}, false, nil
+		}
+	}
+	if a.alive() {
+		a.sigkill()
+	}
+	// everything is dead: a third daemon takes the path over and shows what nsqd.dat holds
+	file, fileOK, _ := readDat(dir)
 	c, err := startDaemon(bin, dir, "", nil, false, "c")
-	third := false
-	if err == nil {
-		_, third = c.waitServing()
+	if err != nil {
+		return lib.Case{}, false, err
+	}
+	seen, third := c.waitServing()
+	if !third {
+		c.waitExit(20 * time.Second)
+	}
+	if c.alive() {
 		c.sigkill()
 	}
-	coq := fmt.Sprintf("(DirLock %s %s %s)", lib.CoqBool(refused), lib.CoqBool(firstAlive), lib.CoqBool(third))
-	return lib.Case{Name: sc.Name, Coq: coq, Input: sc, Tags: []string{"kind=lock", fmt.Sprintf("second_refused=%v", refused)}, Nontrivial: true,
-		Obs: map[string]interface{}{"second_stderr_tail": lastN(berr.String(), 300), "refused": refused, "first_alive": firstAlive, "third_started": third}}, nil
+	if !fileOK {
+		file = nil
+		third = false
+	}
+	coq := fmt.Sprintf("(PathLock %s %s %s %s %s %s %s %s)", lockPhaseCoq(phase), lib.CoqBool(started), lib.CoqBool(refused), lib.CoqBool(datSame),
+		lib.CoqBool(firstStill), lib.CoqBool(third), coqODoc(file), coqDoc(seen))
+	return lib.Case{Name: sc.Name, Coq: coq, Input: sc, Tags: []string{"kind=lock", "phase=" + phase, fmt.Sprintf("second_refused=%v", refused), fmt.Sprintf("second_started=%v", started)}, Nontrivial: true,
+		Obs: map[string]interface{}{"phase": phase, "second_stderr_tail": btail, "second_said_failed_to_lock": lockMsg, "second_started": started, "second_refused": refused,
+			"nsqd_dat_same_file_same_bytes": datSame, "first_still_in_phase": firstStill, "third_started": third, "attempt_ms": took.Milliseconds()}}, true, nil
 }
 
 func lastN(s string, n int) string {
@@ -989,7 +1231,7 @@ type genState struct {
 }
 
 func newGenState() *genState { return &genState{topics: map[string]map[string]bool{}, persists: 1} }
-func isEph(s string) bool   { return strings.HasSuffix(s, "#ephemeral") }
+func isEph(s string) bool    { return strings.HasSuffix(s, "#ephemeral") }
 
 func (g *genState) pickTopic(r *lib.Rand, existing bool) string {
 	if existing && len(g.order) > 0 && r.Chance(88) {
@@ -1285,7 +1527,32 @@ func fixedScenarios() []Scenario {
 			{Ops: []Op{{Kind: "ct", Topic: "t"}, {Kind: "cc", Topic: "t", Channel: "c"}, {Kind: "cc", Topic: "t", Channel: "c2"}, {Kind: "idle"},
 				{Kind: "dc", Topic: "t", Channel: "c"}, {Kind: "dt", Topic: "t"}}, Kill: Kill{Mode: "point", Point: p, K: 1}}, obsCycle}})
 	}
-	out = append(out, Scenario{Name: "fixed-lock", Kind: "lock"})
+	// a channel deletion that completes while the persist of its own Notify goroutine -- whose snapshot was
+	// taken BEFORE the removal -- still holds the NSQD lock: the deleter waits at before-remove until that
+	// persist (the n-th of the daemon) has written / fsynced its temp file, the persist waits there until the
+	// channel has left the map.  The deleter's own persist has to queue behind it and repair the file.
+	for _, v := range []struct {
+		name, at string
+		two      bool
+		kill     Kill
+	}{{"tmp-write", "persist:after-tmp-write", false, idle}, {"tmp-write-2ch-now", "persist:after-tmp-write", true, Kill{Mode: "now"}},
+		{"fsync", "persist:after-fsync", false, idle}} {
+		ops := []Op{{Kind: "ct", Topic: "t"}, {Kind: "idle"}, {Kind: "cc", Topic: "t", Channel: "c"}, {Kind: "idle"}}
+		n := 4
+		if v.two {
+			ops = append(ops, Op{Kind: "cc", Topic: "t", Channel: "c2"}, Op{Kind: "idle"}, Op{Kind: "pc", Topic: "t", Channel: "c2"})
+			n = 6
+		}
+		ops = append(ops, Op{Kind: "dc", Topic: "t", Channel: "c"})
+		if v.kill.Mode == "idle" {
+			ops = append(ops, Op{Kind: "idle"})
+		}
+		out = append(out, Scenario{Name: "fixed-delete-under-stale-persist-" + v.name, Kind: "churn", Cycles: []Cycle{
+			{Ops: ops, Kill: v.kill, Wait: fmt.Sprintf("delete-channel:before-remove|1|%s|%d,%s|%d|delete-channel:after-remove|1", v.at, n, v.at, n)}, obsCycle}})
+	}
+	for _, ph := range lockPhases {
+		out = append(out, Scenario{Name: "fixed-lock-" + ph, Kind: "lock", Phase: ph})
+	}
 	out = append(out, Scenario{Name: "fixed-write-fault-channel", Kind: "fault", Limit: 100,
 		Pre:  []Op{{Kind: "ct", Topic: "t"}},
 		Post: []Op{{Kind: "cc", Topic: "t", Channel: "channel_with_a_long_name"}, {Kind: "ct", Topic: "another_topic_with_a_long_name"}}})
@@ -1556,8 +1823,6 @@ func runScenario(bin, scratch string, sc Scenario) (lib.Case, error) {
 	switch sc.Kind {
 	case "load":
 		return runLoad(bin, scratch, sc)
-	case "lock":
-		return runLock(bin, scratch, sc)
 	}
 	return runChurn(bin, scratch, sc)
 }
@@ -1620,6 +1885,12 @@ func main() {
 				skip[i] = !emit
 				return
 			}
+			if scs[i].Kind == "lock" {
+				var emit bool
+				results[i], emit, errs[i] = runLock(bin, scratch, scs[i])
+				skip[i] = !emit
+				return
+			}
 			if scs[i].Kind == "mix" {
 				var emit bool
 				results[i], emit, errs[i] = runMix(bin, scratch, scs[i], o)
@@ -1641,6 +1912,7 @@ func main() {
 	}
 	o.Stat("daemon_starts", atomic.LoadInt64(&nStarts))
 	o.Stat("write_fault_cases_not_armed", atomic.LoadInt64(&nFaultNotArmed))
+	o.Stat("lock_cases_inconclusive", atomic.LoadInt64(&nLockInconclusive))
 	o.Stat("kills", gstats.kills)
 	o.Stat("idle_points", gstats.idles)
 	o.Stat("directory_samples", gstats.samples)
